@@ -17,9 +17,11 @@ def check(ctx):
     sharing.analyze(ctx, {"C02.f"})
     # a class id on a transition denotes the predicate stored at that index: one predicate per registered class, in id order
     from . import classes
-    classes.analyze(ctx, {"C08.e"})
+    classes.analyze(ctx, {"C08.a", "C08.b", "C08.c", "C08.d", "C08.e"})   # ... and a class transition is taken exactly by the class's characters
     from . import pC06
     pC06.compiled_mode_rules(ctx, "C02.h")   # every configured pattern reaches the compiler, unmodified
+    from . import pC15
+    pC15.parse_pipeline(ctx, "C02.k")   # patterns and lookaheads: the text parsed is the configured text, default parser configuration
     from . import casts
     casts.analyze(ctx, {"C17.a"})   # ids of states, groups and classes are injective
     # the property is observed on scanners obtained through build(): the cache must hand back the configuration's own compilation
